@@ -50,7 +50,9 @@ def run(ctx, crate):
         ins = [x for x in d.sites if x.path.endswith("::insert") and x.args and x.args[0] == b.val_local(0)]
         g = s.guard
         sel = sorted(d.table)
-        unconditional = g is not None and all(all(a.startswith("is(arg3; ") for a in c) for c in g) and len(b.loops_of(s.bb)) == 1
+        import order as O
+        no_exit = all(not lp.exits()[1] for lp in O.loops_of_body(b))
+        unconditional = g is not None and all(all(a.startswith("is(arg3; ") for a in c) for c in g) and len(b.loops_of(s.bb)) == 1 and no_exit
         inserted = len(ins) == 1 and len(ins[0].args) == 2 and ins[0].args[1] == s.result and ins[0].guard == g
         obs.append(Ob("R02.plumb", d.path, "every location is converted and kept", unconditional and inserted, site=s.where,
                       expected="for loc in locations { lines.insert(get_line_number(loc.start(), text)) }; return lines",
